@@ -16,7 +16,7 @@ EXTRA = {
 }
 def sh(cmd, cwd=None, timeout=3600):
     p = subprocess.run(cmd, cwd=cwd, shell=True, stdout=subprocess.PIPE, stderr=subprocess.STDOUT, text=True, timeout=timeout,
-                       env=dict(os.environ, VERIF_NO_ESCALATE="1"))
+                       env=dict(os.environ, VERIF_NO_ESCALATE="1", VERIF_EVIDENCE_DIR=os.path.join(ROOT, "out", "evidence_seeded")))
     return p.returncode, p.stdout
 for name in sorted(os.listdir(os.path.join(ROOT, "seeded"))):
     d = os.path.join(ROOT, "seeded", name)
